@@ -54,11 +54,15 @@ package mqtt
 //@   mode int
 //@   props C01 C03 C05
 //@   requires c != nil && message != nil && ctx != nil
-//@   requires !c.DirectlyPublishQoS0
-//@   note the statement is for the default (queued) publishing mode
-//@   assigns nothing
+//@   note direct mode (DirectlyPublishQoS0) hands QoS 0 messages to the current client at once; it needs a client (SetClient first)
+//@   requires c.DirectlyPublishQoS0 && message.QoS == QoS0 ==> len(message.Topic) <= 0xFFFF && len(message.Topic)+len(message.Payload)+4 <= 0xFFFFFFF
+//@   relies c.DirectlyPublishQoS0 ==> c.cli != nil && c.cli.Transport != nil
+//@   ensures[C01,C03,C12] direct_qos0: c.DirectlyPublishQoS0 && message.QoS == QoS0 ==> evCount("(*RetryClient).pushTask") == 0 && evCount("(*BaseClient).Publish") == 1 &&
+//@        evArg[*BaseClient]("(*BaseClient).Publish", 0, 0) == guardVal(&c.cli) && evArg[*Message]("(*BaseClient).Publish", 0, 2) == message &&
+//@        evArg[context.Context]("(*BaseClient).Publish", 0, 1) == ctx && result == evRet[error]("(*BaseClient).Publish", 0, 0)
+//@   assigns message.ID; message.Dup; any BaseClient.idLast
 //@   ensures[C01] refused_not_accepted: evCount("(*RetryClient).pushTask") == 1 && evRet[error]("(*RetryClient).pushTask", 0, 0) != nil ==> result != nil
-//@   ensures[C01,C03] accepted: result == nil ==> evCount("(*RetryClient).pushTask") == 1 &&
+//@   ensures[C01,C03] accepted: result == nil && !(c.DirectlyPublishQoS0 && message.QoS == QoS0) ==> evCount("(*RetryClient).pushTask") == 1 &&
 //@        closureIs(evArg[taskFn]("(*RetryClient).pushTask", 0, 2), "(*RetryClient).Publish$1") &&
 //@        *closureVarN[**Message](evArg[taskFn]("(*RetryClient).pushTask", 0, 2), "(*RetryClient).Publish$1", "message") == message &&
 //@        *closureVarN[**RetryClient](evArg[taskFn]("(*RetryClient).pushTask", 0, 2), "(*RetryClient).Publish$1", "c") == c
